@@ -959,6 +959,7 @@ def oracle(run, deep):
     oracle_input(run, deep)
     oracle_histories(run, deep)
     oracle_subclasses(run)
+    oracle_yaql_eval(run)
     oracle_engines(run, deep)
     # O3: random host values of every constructor straight into the finaliser
     for _ in range(run.n(800, 15000) * (3 if deep else 1)):
@@ -1378,6 +1379,175 @@ def oracle_subclasses(run):
 
 
 # --------------------------------------------------------------------------
+# the module-level route yaql.eval: overlapping calls, and the state it keeps between calls
+# --------------------------------------------------------------------------
+def _eval_docs():
+    mk = lambda who, extra: (lambda: dict({"who": who, "items": [1, 2, [3, who]], "tags": {who}, "lazy": (x for x in range(3))}, **extra))
+    return {"A": mk("A", {"only_a": {"k": (1, 2)}}), "B": mk("B", {"n": 7}), "C": mk("C", {}), "D": mk("D", {"z": [None]})}
+
+
+def _isolated(expr, doc):
+    """what the call must return: the same expression on the default engine with a context of its own"""
+    return canon_obs(observe(lambda: default_engine()(expr).evaluate(data=doc, context=ctx()))[0])
+
+
+class _Gate:
+    """Deterministic two-thread schedule: thread A stops at the n-th entry of a yield point
+    (Statement.__call__ or runner.call), thread B then runs to completion, A resumes."""
+
+    def __init__(self, point, nth):
+        import threading
+        self.point, self.nth = point, nth
+        self.a_ident, self.count = None, 0
+        self.a_waiting, self.a_go = threading.Event(), threading.Event()
+
+    def hit(self, point):
+        import threading
+        if point != self.point or threading.get_ident() != self.a_ident:
+            return
+        self.count += 1
+        if self.count == self.nth:
+            self.a_waiting.set()
+            self.a_go.wait(20)
+
+    def run(self, job_a, job_b):
+        import threading
+        from yaql.language import expressions, runner
+        res = {}
+        orig_call, orig_rc = expressions.Statement.__call__, runner.call
+        gate = self
+
+        def st_call(stmt, *a, **k):
+            gate.hit("statement_call")
+            return orig_call(stmt, *a, **k)
+
+        def r_call(*a, **k):
+            gate.hit("runner_call")
+            return orig_rc(*a, **k)
+
+        def body_a():
+            gate.a_ident = threading.get_ident()
+            try:
+                res["A"] = observe(job_a)[0]
+            finally:
+                gate.a_waiting.set()
+
+        expressions.Statement.__call__ = st_call
+        runner.call = r_call
+        try:
+            ta = threading.Thread(target=body_a, daemon=True)
+            ta.start()
+            self.a_waiting.wait(20)                  # A is inside its window (or already finished)
+            tb = threading.Thread(target=lambda: res.__setitem__("B", observe(job_b)[0]), daemon=True)
+            tb.start()
+            tb.join(20)
+            self.a_go.set()
+            ta.join(20)
+        finally:
+            expressions.Statement.__call__ = orig_call
+            runner.call = orig_rc
+            self.a_go.set()
+        return res.get("A", ("other", "thread A did not finish")), res.get("B", ("other", "thread B did not finish")), self.count >= self.nth
+
+
+def yaql_eval_findings(soak=True):
+    """every finding is (scenario, what, details); empty on a correct tree"""
+    import sys
+    import threading
+    from yaql.language import contexts as C
+    out = []
+    docs = _eval_docs()
+
+    def held_contexts():
+        return {n: v for n, v in vars(yaql).items() if isinstance(v, C.ContextBase)}
+
+    # (0) sequential use and the state kept between calls
+    yaql.eval("$", docs["A"]())
+    before = {n: sorted(c.keys()) for n, c in held_contexts().items()}
+    for who in ("B", "A", "C"):
+        want = _isolated("$", docs[who]())
+        got = canon_obs(observe(lambda: yaql.eval("$", docs[who]()))[0])
+        if got != want:
+            out.append(("sequential", "yaql.eval('$', doc) does not give the document back", {"doc": who, "observed": repr(got)[:400], "required": repr(want)[:400]}))
+        for n, c in held_contexts().items():
+            if sorted(c.keys()) != before.get(n) or c["$"] is not None:
+                out.append(("state", "yaql.eval leaves the caller's `$` / new keys in a context the module keeps between calls",
+                            {"module_global": n, "keys_before": before.get(n), "keys_after": sorted(c.keys()),
+                             "dollar_after_call": repr(c["$"])[:200],
+                             "required": "the contexts yaql/__init__.py keeps are unchanged by a call; `$` lives in a per-call context"}))
+                break
+    # (a) re-entrant: draining a generator of the document performs a nested yaql.eval
+    def nesting_doc(inner_expr, inner_who):
+        def g():
+            yield 1
+            yield yaql.eval(inner_expr, docs[inner_who]())
+        return {"who": "outer", "g": g(), "items": [1, 2]}
+    for expr in ("[$.g.toList(), $.who]", "[list($.g), $]", "[$.who, $.g.select($).toList(), $.who, $.items]", "$"):
+        for inner_expr, inner_who in (("$", "B"), ("$.who", "C"), ("[$, $.who]", "D")):
+            want = canon_obs(observe(lambda: default_engine()(expr).evaluate(data=nesting_doc(inner_expr, inner_who), context=ctx()))[0])
+            got = canon_obs(observe(lambda: yaql.eval(expr, nesting_doc(inner_expr, inner_who)))[0])
+            if got != want:
+                out.append(("re-entrant", "a nested yaql.eval changes what the outer call's `$` denotes",
+                            {"outer": expr, "inner": [inner_expr, inner_who], "observed": repr(got)[:500], "required": repr(want)[:500]}))
+    # (b) deterministic two-thread schedules: A pauses inside its call, B runs completely, A resumes
+    routes = {
+        "yaql.eval": lambda who: (lambda: yaql.eval("$", docs[who]())),
+        "engine+own context": lambda who: (lambda: default_engine()("$").evaluate(data=docs[who](), context=ctx())),
+    }
+    shared_stmt = default_engine()("$")
+    routes["one Statement object, own contexts"] = lambda who: (lambda: shared_stmt.evaluate(data=docs[who](), context=ctx()))
+    for rname, route in routes.items():
+        for point, nths in (("statement_call", (1,)), ("runner_call", (1, 2, 3, 4))):
+            for nth in nths:
+                for a, b in (("A", "B"), ("B", "A")):
+                    ra, rb, reached = _Gate(point, nth).run(route(a), route(b))
+                    for who, r in ((a, ra), (b, rb)):
+                        want = _isolated("$", docs[who]())
+                        if canon_obs(r) != want:
+                            out.append(("two threads", "overlapping calls: a call returns another caller's document",
+                                        {"route": rname, "thread_A_pauses_at": "%s #%d" % (point, nth), "gate_reached": reached,
+                                         "caller": who, "observed": repr(canon_obs(r))[:500], "required": repr(want)[:500]}))
+    # (c) free-running soak
+    if soak and not out:
+        old = sys.getswitchinterval()
+        sys.setswitchinterval(1e-5)
+        bad = []
+        wants = {w: _isolated("$", docs[w]()) for w in docs}
+
+        def worker(who):
+            for _ in range(150):
+                got = canon_obs(observe(lambda: yaql.eval("$", docs[who]()))[0])
+                if got != wants[who]:
+                    bad.append((who, repr(got)[:300]))
+                    return
+        try:
+            ts = [threading.Thread(target=worker, args=(w,), daemon=True) for w in docs]
+            for t in ts:
+                t.start()
+            for t in ts:
+                t.join(60)
+        finally:
+            sys.setswitchinterval(old)
+        if bad:
+            out.append(("soak", "overlapping calls: a call returns another caller's document",
+                        {"route": "yaql.eval, 4 free-running threads", "caller": bad[0][0], "observed": bad[0][1]}))
+    return out
+
+
+def oracle_yaql_eval(run):
+    found = yaql_eval_findings()
+    run.cov["evaluations"] += 120
+    run.count("O:yaql.eval-scenarios-" + ("ok" if not found else "FAIL"))
+    seen = set()
+    for scen, what, details in found:
+        if (scen, what) in seen:
+            continue
+        seen.add((scen, what))
+        run.fail("violation", what, dict(details, kind="yaql_eval", scenario=scen,
+                                         options={"convertTuplesToLists": True, "convertSetsToLists": False}))
+
+
+# --------------------------------------------------------------------------
 # histories: statement reuse across contexts, engines created and dropped in sequence
 # --------------------------------------------------------------------------
 CTX_KINDS = ["std", "std_child", "std_grandchild", "bare", "sandbox", "custom_fin"]
@@ -1646,6 +1816,8 @@ def replay(run, data):
         if obs[0] == "val" and census(res, t2l, s2l):
             return False
         return not run.coq_mismatches(LHEADER, "lcase", "lcase_ok", [lcase_term(t2l, s2l, d["limit"], tin, obs)])
+    if d.get("kind") == "yaql_eval":
+        return not [f for f in yaql_eval_findings(soak=d.get("scenario") == "soak") if f[0] == d.get("scenario")]
     if d.get("kind") == "subclass":
         import core
         r2 = core.Run("C10", "quick", 0)
